@@ -643,6 +643,13 @@ func main() {
 	if r.HasViolations() {
 		r.Finish()
 	}
+	// element types other than int, several consumers blocked in PopWait(-1) (typed.go)
+	r.CasesProc("stress/typed", r.N(42, 210), ev.Opt{Procs: 6, AlwaysLog: true, MaxCaseSeconds: 600}, typedStressCase)
+	r.CasesProc("stress/typed/race", r.N(14, 70), ev.Opt{Bin: "race", Procs: 4, AlwaysLog: true, MaxCaseSeconds: 900}, typedStressCase)
+	r.Require("typed_stress_runs", 40)
+	r.Require("typed_stress_mode_PopWaitForever", 10)
+	r.Require("typed_stress struct{80 bytes}", 4)
+	r.Require("typed_stress struct{1024 bytes}", 4)
 	r.CasesProc("stress/race", r.N(12, 60), ev.Opt{Bin: "race", Procs: 3, AlwaysLog: true, MaxCaseSeconds: 1500}, stressCase)
 	r.CasesProc("stress/jitter", r.N(6, 30), ev.Opt{Bin: "shimrace", Procs: 2, AlwaysLog: true, MaxCaseSeconds: 1500, Env: []string{"VERIF_JITTER=1"}}, stressCase)
 	if r.Thorough() {
